@@ -11,6 +11,8 @@ arctan2(pol_y, pol_x)`, kernel at `phi − tetta` is resolved with the kernel's 
 azimuth and the addition theorems), whenever the evaluations involved return a value.
 -/
 import MagpyVerif.Lemmas.KernCylSeg
+import MagpyVerif.Lemmas.KernCylSegLin
+import MagpyVerif.Lemmas.KernCylSegDisp
 import MagpyVerif.Lemmas.Level2Shape
 import MagpyVerif.Lemmas.KernAlgebra
 import MagpyVerif.Lemmas.KernCylinder
@@ -270,15 +272,75 @@ end MagpyVerif.C05
 namespace MagpyVerif.C05
 open MagpyVerif MagpyVerif.Kern MagpyVerif.Kern.CylSeg
 
-/-- C05 (CylinderSegment), magnitude part of linearity: multiplying the polarization vector by a positive
-factor `c` multiplies all four outputs of the ported `BHJM_cylinder_segment` by `c`, at every observer.
-The code converts the polarization to (|p|/μ₀, arctan2(p_y, p_x), arctan2(√(p_x²+p_y²), p_z)); the two angles — hence
-every case id, every argument of the case functions and of the special functions — do not change, the amplitude
-enters only through the final factor `M · 1e-7 / MU0`.  A NaN row (`none`) stays a NaN row.
-/- FULL: `bhjmCylSeg f x … (a·p1 + b·p2) = a·bhjmCylSeg f x … p1 + b·bhjmCylSeg f x … p2` for arbitrary vectors and
-real a, b.  Not shown: it needs the case functions to depend on (theta_M, phi_M) through
-sin θ cos φ, sin θ sin φ, cos θ linearly — 129 expressions; left to the superposition oracle. -/ -/
-theorem cylseg_linear_in_magnetization_partial (μ : ℝ) (S : SegSpecial) (c : ℝ) (hc : 0 < c) (f : Field)
+/-- **C05 (CylinderSegment): all four outputs of the ported `BHJM_cylinder_segment` are linear in the polarization
+vector**, at every observer, for arbitrary vectors `p`, `q` (different directions, zero, on the z-axis) and real
+`a`, `b`:  `f(a·p + b·q) = a·f(p) + b·f(q)`; a NaN row (`none`) is a NaN row for every polarization.
+The code converts the vector to (|p|/μ₀, arctan2(p_y, p_x), arctan2(√(p_x²+p_y²), p_z)) (`cylseg_spherical_conversion`);
+each of the 129 translated case functions is linear in the unit vector (sin θ cos φ, sin θ sin φ, cos θ)
+(Lemmas/KernCylSegLinGen.lean: statements generated from the source's parameter lists, one uniform tactic; the
+special functions are opaque and never see the magnetization angles, `cylseg_special_functions_magnetization_free`);
+the boundary sum, the amplitude factor, the rotation to Cartesian components and the B/H/J/M selection are linear. -/
+theorem cylseg_linear_in_magnetization (μ : ℝ) (S : SegSpecial) (a b : ℝ) (f : Field)
+    (x : V3 ℝ) (r1 r2 h p1 p2 : ℝ) (p q : V3 ℝ) :
+    @bhjmCylSeg ℝ (realNumX μ S) f x r1 r2 h p1 p2 (lin2 a b p q) =
+      olin a b (@bhjmCylSeg ℝ (realNumX μ S) f x r1 r2 h p1 p2 p) (@bhjmCylSeg ℝ (realNumX μ S) f x r1 r2 h p1 p2 q) :=
+  bhjmCylSeg_linear μ S a b f x r1 r2 h p1 p2 p q
+
+-- non-vacuity: the combination really mixes directions (e_x + e_z), which the magnitude-only statement could not reach,
+-- and `olin` of two present rows is a present row
+example : lin2 1 1 (⟨1, 0, 0⟩ : V3 ℝ) ⟨0, 0, 1⟩ = ⟨1, 0, 1⟩ := by simp [lin2]
+example (X Y : V3 ℝ) : (olin 2 3 (some X) (some Y)).isSome := rfl
+-- … and the equation is between proper rows, not `none = none`: at the centre of the apex line of the wedge
+-- CylinderSegment(dimension=(0, 1, 2, 30, 120)) every field is a row, for every polarization
+example (μ : ℝ) (S : SegSpecial) (f : Field) (pol : V3 ℝ) :
+    (@bhjmCylSeg ℝ (realNumX μ S) f ⟨0, 0, 0⟩ 0 1 2 30 120 pol).isSome = true :=
+  wedge_centre_isSome μ S f pol
+
+/-- the Cartesian core of the wrapper (H of the not-on-surface rows) is linear in the polarization vector, and it
+is `p_x/μ₀ · E_x + p_y/μ₀ · E_y + p_z/μ₀ · E_z` with unit fields `E` that depend on geometry and observer only -/
+theorem cylseg_core_linear_in_magnetization (μ : ℝ) (S : SegSpecial) (N : SegNorm ℝ) (a b : ℝ) (p q : V3 ℝ) :
+    @segCoreH ℝ (realNumX μ S) N (lin2 a b p q) =
+      olin a b (@segCoreH ℝ (realNumX μ S) N p) (@segCoreH ℝ (realNumX μ S) N q) ∧
+    @segCoreH ℝ (realNumX μ S) N p =
+      ocomb (p.z / μ) (p.y / μ) (p.x / μ) (segCoreUnit μ S N 0 0)
+        (segCoreUnit μ S N (Real.pi / 2) (Real.pi / 2)) (segCoreUnit μ S N 0 (Real.pi / 2)) :=
+  ⟨segCoreH_linear μ S N a b p q, segCoreH_cartesian μ S N p⟩
+
+/-- whether the core returns a NaN row does not depend on the polarization -/
+theorem cylseg_nan_rows_independent_of_magnetization (μ : ℝ) (S : SegSpecial) (N : SegNorm ℝ) (p q : V3 ℝ) :
+    (@segCoreH ℝ (realNumX μ S) N p).isSome = (@segCoreH ℝ (realNumX μ S) N q).isSome :=
+  segCoreH_isSome μ S N p q
+
+/-- the hypothesis about arccos/arctan2 the linearity rests on, proved: the code's conversion to
+(amplitude, azimuth, polar angle) satisfies `M·(sin θ cos φ, sin θ sin φ, cos θ) = p/μ₀` for every vector `p`
+(for `p = 0` the amplitude is 0; on the z-axis `arctan2(0, 0) = 0` and `sin θ = 0`) -/
+theorem cylseg_spherical_conversion (μ : ℝ) (p : V3 ℝ) :
+    let m := Real.sqrt (p.x * p.x + p.y * p.y + p.z * p.z) / μ
+    let φ := Complex.arg ⟨p.x, p.y⟩
+    let θ := Complex.arg ⟨p.z, Real.sqrt (p.x * p.x + p.y * p.y)⟩
+    m * Real.cos θ = p.z / μ ∧ m * Real.sin θ * Real.sin φ = p.y / μ ∧ m * Real.sin θ * Real.cos φ = p.x / μ :=
+  sph_of_cart μ p
+
+/-- `magnet_cylinder_segment_Hfield` in spherical magnetization coordinates is the combination of its values for unit
+magnetization along e_z, e_y, e_x -/
+theorem cylseg_Hfield_linear_in_unit_vector (μ : ℝ) (S : SegSpecial) (r phi z r1 r2 p1 p2 z1 z2 mag φ θ : ℝ) :
+    @segH ℝ (realNumX μ S) r phi z r1 r2 p1 p2 z1 z2 mag φ θ =
+      ocomb (mag * Real.cos θ) (mag * (Real.sin θ * Real.sin φ)) (mag * (Real.sin θ * Real.cos φ))
+        (@segH ℝ (realNumX μ S) r phi z r1 r2 p1 p2 z1 z2 1 0 0)
+        (@segH ℝ (realNumX μ S) r phi z r1 r2 p1 p2 z1 z2 1 (Real.pi / 2) (Real.pi / 2))
+        (@segH ℝ (realNumX μ S) r phi z r1 r2 p1 p2 z1 z2 1 0 (Real.pi / 2)) :=
+  segH_sphlin μ S r phi z r1 r2 p1 p2 z1 z2 mag φ θ
+
+/-- emitted by the translator's syntactic scan and checked here: the special functions never take the magnetization
+angles as arguments, and no case function uses them outside `np.sin` / `np.cos` in a non-polynomial position -/
+theorem cylseg_special_functions_magnetization_free :
+    specialCallDeps.all (fun e => e.2.2.all fun v => v ∈ ["r", "r_i", "r_bar_i", "phi_bar_j", "z_bar_k"]) = true ∧
+    magArgOffences = [] :=
+  ⟨specialCallDeps_magnetization_free, magArgOffences_empty⟩
+
+/-- the magnitude part (kept: it is what the rescaling oracle exercises): a positive factor on the polarization
+multiplies all four outputs -/
+theorem cylseg_scales_with_polarization (μ : ℝ) (S : SegSpecial) (c : ℝ) (hc : 0 < c) (f : Field)
     (x : V3 ℝ) (r1 r2 h p1 p2 : ℝ) (pol : V3 ℝ) :
     @bhjmCylSeg ℝ (realNumX μ S) f x r1 r2 h p1 p2 (@vs ℝ (realNum μ) c pol) =
       (@bhjmCylSeg ℝ (realNumX μ S) f x r1 r2 h p1 p2 pol).map (@vs ℝ (realNum μ) c) :=
